@@ -85,4 +85,74 @@ package autodiff
 //@   loop 1 invariant forall k int :: 0 <= k && k < j ==> v[k] == elem_$M(matrix, i, k)
 //@   loop 1 invariant forall b int, k int :: b != base(v) ==> row($E, b)[k] == old(row($E, b)[k])
 //@   loop 1 decreases matrix.cols - j
+
+//@ func (*$M).COL [also: (*$M).Col]
+//@   requires WF_$M(matrix)
+//@   panics_when matrix.rows > 0 && (j < 0 || j >= matrix.cols)
+//@   ensures isa($V, result) && fresh(as($V, result)) && len(as($V, result)) == matrix.rows
+//@   ensures forall i int :: 0 <= i && i < matrix.rows ==> as($V, result)[i] == elem_$M(matrix, i, j)
+//@   modifies nothing
+//@   loop 1 invariant 0 <= i && i <= matrix.rows && fresh(v) && len(v) == matrix.rows && off(v) == 0
+//@   loop 1 invariant i > 0 ==> 0 <= j && j < matrix.cols
+//@   loop 1 invariant forall k int :: 0 <= k && k < i ==> v[k] == elem_$M(matrix, k, j)
+//@   loop 1 invariant forall b int, k int :: b != base(v) ==> row($E, b)[k] == old(row($E, b)[k])
+//@   loop 1 decreases matrix.rows - i
+
+//@ func (*$M).DIAG [also: (*$M).Diag, (*$M).ConstDiag]
+//@   requires WF_$M(matrix)
+//@   panics_when matrix.rows != matrix.cols
+//@   ensures isa($V, result) && fresh(as($V, result)) && len(as($V, result)) == matrix.rows
+//@   ensures forall i int :: 0 <= i && i < matrix.rows ==> as($V, result)[i] == elem_$M(matrix, i, i)
+//@   modifies nothing
+//@   loop 1 invariant 0 <= i && i <= n && n == matrix.rows && n == matrix.cols && fresh(v) && len(v) == n && off(v) == 0
+//@   loop 1 invariant forall k int :: 0 <= k && k < i ==> v[k] == elem_$M(matrix, k, k)
+//@   loop 1 invariant forall b int, k int :: b != base(v) ==> row($E, b)[k] == old(row($E, b)[k])
+//@   loop 1 decreases n - i
+
+//@ func (*$M).ConstRow
+//@   requires WF_$M(matrix)
+//@   panics_when (matrix.transposed && matrix.cols > 0 && (i < 0 || i >= matrix.rows)) || (!matrix.transposed && (i < 0 || i >= matrix.rows || matrix.cols == 0))
+//@   ensures isa($V, result) && len(as($V, result)) == matrix.cols
+//@   ensures forall j int :: 0 <= j && j < matrix.cols ==> as($V, result)[j] == elem_$M(matrix, i, j)
+//@   modifies nothing
+//@   loop 1 invariant 0 <= j && j <= matrix.cols && fresh(v) && len(v) == matrix.cols && off(v) == 0
+//@   loop 1 invariant forall k int :: 0 <= k && k < j ==> v[k] == elem_$M(matrix, i, k)
+//@   loop 1 invariant forall b int, k int :: b != base(v) ==> row($E, b)[k] == old(row($E, b)[k])
+//@   loop 1 decreases matrix.cols - j
+
+//@ func (*$M).ConstCol
+//@   requires WF_$M(matrix)
+//@   panics_when (!matrix.transposed && matrix.rows > 0 && (j < 0 || j >= matrix.cols)) || (matrix.transposed && (j < 0 || j >= matrix.cols || matrix.rows == 0))
+//@   ensures isa($V, result) && len(as($V, result)) == matrix.rows
+//@   ensures forall i int :: 0 <= i && i < matrix.rows ==> as($V, result)[i] == elem_$M(matrix, i, j)
+//@   modifies nothing
+//@   loop 1 invariant 0 <= i && i <= matrix.rows && fresh(v) && len(v) == matrix.rows && off(v) == 0
+//@   loop 1 invariant forall k int :: 0 <= k && k < i ==> v[k] == elem_$M(matrix, k, j)
+//@   loop 1 invariant forall b int, k int :: b != base(v) ==> row($E, b)[k] == old(row($E, b)[k])
+//@   loop 1 decreases matrix.rows - i
+
+//@ func (*$M).Clone [also: (*$M).CloneMatrix, (*$M).CloneConstMatrix]
+//@   props C10 C12
+//@   requires WF_$M(matrix)
+//@   ensures isa(*$M, result) && fresh(as(*$M, result)) && fresh(as(*$M, result).values) && WF_$M(as(*$M, result))
+//@   ensures as(*$M, result).rows == matrix.rows && as(*$M, result).cols == matrix.cols
+//@   ensures forall i int, j int :: inview_$M(matrix, i, j) ==> elem_$M(as(*$M, result), i, j) == elem_$M(matrix, i, j)
+//@   modifies nothing
+
+//@ func (*$M).Reset
+//@   requires WF_$M(matrix)
+//@   ensures forall i int, j int :: inview_$M(matrix, i, j) ==> elem_$M(matrix, i, j) == 0
+//@   ensures @frame forall k int :: (forall i int, j int :: inview_$M(matrix, i, j) ==> addr_$M(matrix, i, j) != k) ==> matrix.values[k] == old(matrix.values[k])
+//@   modifies []$E@{matrix.values}
+//@   loop 1 invariant 0 <= i && i <= n && n == matrix.rows && m == matrix.cols
+//@   loop 1 invariant forall p int, q int :: 0 <= p && p < i && 0 <= q && q < m ==> elem_$M(matrix, p, q) == 0
+//@   loop 1 invariant forall k int :: (forall p int, q int :: inview_$M(matrix, p, q) ==> addr_$M(matrix, p, q) != k) ==> matrix.values[k] == old(matrix.values[k])
+//@   loop 1 invariant forall b int, k int :: b != base(matrix.values) ==> row($E, b)[k] == old(row($E, b)[k])
+//@   loop 1 decreases n - i
+//@   loop 2 invariant 0 <= i && i < n && 0 <= j && j <= m && n == matrix.rows && m == matrix.cols
+//@   loop 2 invariant forall p int, q int :: 0 <= p && p < i && 0 <= q && q < m ==> elem_$M(matrix, p, q) == 0
+//@   loop 2 invariant forall q int :: 0 <= q && q < j ==> elem_$M(matrix, i, q) == 0
+//@   loop 2 invariant forall k int :: (forall p int, q int :: inview_$M(matrix, p, q) ==> addr_$M(matrix, p, q) != k) ==> matrix.values[k] == old(matrix.values[k])
+//@   loop 2 invariant forall b int, k int :: b != base(matrix.values) ==> row($E, b)[k] == old(row($E, b)[k])
+//@   loop 2 decreases m - j
 //@ end
